@@ -14,7 +14,7 @@ From RV Require Import Dataset.Model Dataset.Proofs Purity.Model Purity.Proofs.
 Local Open Scope N_scope.
 
 Theorem C13_reachable : forall b ops,
-  forallb (fun o => negb (is_read o) && negb (adds_none o)) ops = true ->
+  forallb (fun o => negb (is_read o)) ops = true ->
   R (build (ds_init b) ops) (fold_left sp_step ops sp_init).
 Proof. exact reachable_R. Qed.
 Print Assumptions C13_reachable.
@@ -81,9 +81,9 @@ Print Assumptions C13_run_reading.
 Example C13_nonvacuous :
   let c := {| p_ds := true;
               p_build := [OAdd (1, 3, 2) (CQuad (Some (GId 1))); OAdd (8, 4, 5) (CQuad (Some (GId 3)));
-                          OAdd (1, 3, 2) CTriple; OGraph (Some (GId 2))];
+                          OAdd (1, 3, 2) CTriple; OAdd (2, 4, 5) (CQuad None); OGraph (Some (GId 2))];
               p_reads := [RdGraphs; RdTriples pall CTriple (Some (GView 1)) true; RdOpaque 7;
                           RdQuads pall (CQuad (Some (GId 3))); RdContains (pat_of (1, 3, 2)) (CQuad (Some (GView 2))) false] |} in
   pwf c /\ pkf c = 0 /\ spec_ok c (model_obs c) = true
-  /\ length (fst (fst (model_obs c))) = 3%nat /\ length (snd (model_obs c)) = 5%nat.
+  /\ length (fst (fst (model_obs c))) = 4%nat /\ length (snd (model_obs c)) = 5%nat.
 Proof. cbv zeta. repeat split; vm_compute; reflexivity. Qed.
